@@ -67,6 +67,16 @@ struct Known {
     hashes: BTreeSet<String>,
 }
 
+/// Listed ceiling for the number of failing cases attributed to `clause` (known_findings.json,
+/// `clause_ceilings.<property>.<tier>.<clause>`; read-only). Used by checks that report one witness per
+/// root-cause clause: MORE failing cases than listed in a clause is a new violation even if no shorter
+/// witness appears.
+pub fn clause_ceiling(property: &str, tier: Tier, clause: &str) -> Option<u64> {
+    let text = std::fs::read_to_string(verif_root().join("known_findings.json")).ok()?;
+    let doc: J = serde_json::from_str(&text).ok()?;
+    doc["clause_ceilings"][property][tier.name()][clause].as_u64()
+}
+
 /// All witness hashes listed for `property` in known_findings.json (read-only).
 pub fn known_hashes(property: &str) -> BTreeSet<String> {
     let r = Report::new(property, Tier::Quick, "other");
